@@ -56,12 +56,16 @@ public:
 
   virtual bool newBlock(int32_t angle)
   {
-    if (angle < prev_angle_)
+    bool wrapped = (angle < prev_angle_);
+    if (wrapped)
     {
       prev_angle_ -= 36000;
     }
 
-    bool v = ((prev_angle_ < split_angle_) && (split_angle_ <= angle));
+    // the arc (prev_angle_, angle] may contain the split angle itself, or, when the azimuth
+    // wrapped through 0, the split angle of the previous round (split_angle_ - 36000).
+    bool v = ((prev_angle_ < split_angle_) && (split_angle_ <= angle)) || 
+      (wrapped && (prev_angle_ < (split_angle_ - 36000)));
 #if 0
     if (v) 
     {
